@@ -13,6 +13,7 @@
 #     string risky(1: string s) throws (1: Oops e),
 #     void   guard(1: string s) throws (1: Oops e),
 #     string multi(1: string s) throws (1: Oops e, 2: Denied d),
+#     string join(1: string s, 2: string t, 3: i32 n, 4: bool f),
 #   }
 #
 from thrift.Thrift import TType, TMessageType, TApplicationException, TProcessor
@@ -94,6 +95,9 @@ class Iface(object):
     def guard(self, s):
         pass
 
+    def join(self, s, t, n, f):
+        pass
+
 
 class Client(Iface):
     """The Thrift library-style blocking client (used only to validate this
@@ -163,6 +167,13 @@ class Client(Iface):
             raise r.d
         raise TApplicationException(TApplicationException.MISSING_RESULT, "multi failed: unknown result")
 
+    def join(self, s, t, n, f):
+        self._send('join', join_args(s, t, n, f))
+        r = self._recv(join_result())
+        if r.success is not None:
+            return r.success
+        raise TApplicationException(TApplicationException.MISSING_RESULT, "join failed: unknown result")
+
 
 class Processor(Iface, TProcessor):
     def __init__(self, handler):
@@ -174,6 +185,7 @@ class Processor(Iface, TProcessor):
         self._processMap["risky"] = Processor.process_risky
         self._processMap["guard"] = Processor.process_guard
         self._processMap["multi"] = Processor.process_multi
+        self._processMap["join"] = Processor.process_join
         self._on_message_begin = None
 
     def on_message_begin(self, func):
@@ -300,6 +312,24 @@ class Processor(Iface, TProcessor):
             msg_type = TMessageType.EXCEPTION
             result = TApplicationException(TApplicationException.INTERNAL_ERROR, 'Internal error')
         self._finish("multi", msg_type, result, seqid, oprot)
+
+    def process_join(self, seqid, iprot, oprot):
+        args = join_args()
+        args.read(iprot)
+        iprot.readMessageEnd()
+        result = join_result()
+        try:
+            result.success = self._handler.join(args.s, args.t, args.n, args.f)
+            msg_type = TMessageType.REPLY
+        except TTransport.TTransportException:
+            raise
+        except TApplicationException as ex:
+            msg_type = TMessageType.EXCEPTION
+            result = ex
+        except Exception:
+            msg_type = TMessageType.EXCEPTION
+            result = TApplicationException(TApplicationException.INTERNAL_ERROR, 'Internal error')
+        self._finish("join", msg_type, result, seqid, oprot)
 
     def process_guard(self, seqid, iprot, oprot):
         args = guard_args()
@@ -488,6 +518,39 @@ multi_result.thrift_spec = (
     (0, TType.STRING, 'success', 'UTF8', None, ),
     (1, TType.STRUCT, 'e', [Oops, None], None, ),
     (2, TType.STRUCT, 'd', [Denied, None], None, ),
+)
+
+
+class join_args(TBase):
+    __slots__ = ('s', 't', 'n', 'f')
+
+    def __init__(self, s=None, t=None, n=None, f=None):
+        self.s = s
+        self.t = t
+        self.n = n
+        self.f = f
+
+
+all_structs.append(join_args)
+join_args.thrift_spec = (
+    None,
+    (1, TType.STRING, 's', 'UTF8', None, ),
+    (2, TType.STRING, 't', 'UTF8', None, ),
+    (3, TType.I32, 'n', None, None, ),
+    (4, TType.BOOL, 'f', None, None, ),
+)
+
+
+class join_result(TBase):
+    __slots__ = ('success',)
+
+    def __init__(self, success=None):
+        self.success = success
+
+
+all_structs.append(join_result)
+join_result.thrift_spec = (
+    (0, TType.STRING, 'success', 'UTF8', None, ),
 )
 fix_spec(all_structs)
 del all_structs
